@@ -450,6 +450,42 @@ Definition encode_items (s : sschema) (v : sval) : option (list witem) := enc_bo
 Definition encode (s : sschema) (v : sval) : option afile :=
   match encode_items s v with Some items => Some (afile_of items) | None => None end.
 
+(* ---- the destination body (hclwrite ast_body.go, as populateBody uses it) ------------------ *)
+(* EncodeIntoBody is given an EXISTING *hclwrite.Body (the root body of a new or a loaded
+   file, the body of a block, the target of an earlier EncodeIntoBody) and REPLACES its
+   contents: populateBody calls dst.Clear() and then, per field,
+     SetAttributeValue(name, v)  — looks the name up among the attributes the body holds NOW:
+                                   found -> that attribute gets the new value where it stands,
+                                   not found -> a new attribute is appended;
+     AppendNewline()             — appended;
+     AppendBlock(EncodeAsBlock)  — appended; the block body is built by the same calls on the
+                                   empty body of NewBlock.
+   A body is the list of the items it holds, in order. *)
+Definition wb_clear (b : list witem) : list witem := [].
+
+Fixpoint wb_set_attr (n : list Z) (v : val) (b : list witem) : list witem :=
+  match b with
+  | [] => [WAttr n v]
+  | WAttr n' v' :: r => if str_eqb n n' then WAttr n v :: r else WAttr n' v' :: wb_set_attr n v r
+  | i :: r => i :: wb_set_attr n v r
+  end.
+
+(* one writer call c on body b *)
+Fixpoint wb_call (b : list witem) (c : witem) {struct c} : list witem :=
+  match c with
+  | WAttr n v => wb_set_attr n v b
+  | WNewline => b ++ [WNewline]
+  | WBlock ty ls calls => b ++ [WBlock ty ls (fold_left wb_call calls [])]
+  end.
+Definition wb_run (calls : list witem) (b : list witem) : list witem := fold_left wb_call calls b.
+
+(* EncodeIntoBody(&v, dst): what dst holds afterwards; None = panic *)
+Definition encode_into (dst : list witem) (s : sschema) (v : sval) : option (list witem) :=
+  match encode_items s v with
+  | Some calls => Some (wb_run calls (wb_clear dst))
+  | None => None
+  end.
+
 (* ---- the hcl.Body interface ------------------------------------------------------------- *)
 Record bschema := mkBS {
   bs_attrs : list (list Z * bool);     (* name, required *)
